@@ -28,34 +28,41 @@ func run(name, dsl string, tuples []fga.Tuple, rq fga.Req) {
 }
 
 func main() {
-	run("R1", `model
+	run("R3", `model
   schema 1.1
 type user
-type employee
 type group
   relations
-    define other: [employee]
-    define member: [user, group#member, group#other]
+    define allowed: [user]
+    define member: [user, group#member] and allowed
 `, []fga.Tuple{
-		{Obj: "group:1", Rel: "member", User: "group:2#other"},
+		{Obj: "group:1", Rel: "member", User: "group:2#member"},
 		{Obj: "group:2", Rel: "member", User: "user:x"},
+		{Obj: "group:2", Rel: "allowed", User: "user:x"},
 	}, fga.Req{Obj: "group:1", Rel: "member", User: "user:x"})
-
-	run("R2", `model
+	run("R4", `model
   schema 1.1
 type user
-type employee
-type org
+type group
   relations
-    define parent: [folder]
-    define rviewer: [employee]
-type folder
-  relations
-    define parent: [folder, org]
-    define rviewer: [user] or rviewer from parent
+    define banned: [user]
+    define member: [user, group#member] but not banned
 `, []fga.Tuple{
-		{Obj: "folder:1", Rel: "parent", User: "org:o"},
-		{Obj: "org:o", Rel: "parent", User: "folder:2"},
-		{Obj: "folder:2", Rel: "rviewer", User: "user:x"},
-	}, fga.Req{Obj: "folder:1", Rel: "rviewer", User: "user:x"})
+		{Obj: "group:1", Rel: "member", User: "group:2#member"},
+		{Obj: "group:2", Rel: "member", User: "user:x"},
+		{Obj: "group:1", Rel: "banned", User: "user:x"},
+	}, fga.Req{Obj: "group:1", Rel: "member", User: "user:x"})
+	run("R5", `model
+  schema 1.1
+type user
+type group
+  relations
+    define banned: [user]
+    define member: [user, group#member] but not banned
+`, []fga.Tuple{
+		{Obj: "group:1", Rel: "member", User: "group:2#member"},
+		{Obj: "group:2", Rel: "member", User: "group:3#member"},
+		{Obj: "group:3", Rel: "member", User: "user:x"},
+		{Obj: "group:2", Rel: "banned", User: "user:x"},
+	}, fga.Req{Obj: "group:1", Rel: "member", User: "user:x"})
 }
